@@ -3,14 +3,25 @@
 Decides (from the syntax trees of hailtop/aiotools/fs/{fs,stream}.py, aiotools/{local_fs,router_fs}.py, aiocloud/*/…; nothing is run):
   R1  HTTP back ends (GCS, S3): on every path to the request the Range value is `bytes={start}-` when no length is given and
       `bytes={start}-{E}` with E = start + length - 1 (linear normal form) when one is; the value is what is sent
-      (headers={'Range': …} / Range=…)
+      (headers={'Range': …} / Range=…).  When the Range is not spelled out at that call - it sits in a dict assembled along the way (`**kwargs`)
+      or is built by the callee from (start, length) - `_open_from` and the functions of its module it calls are executed abstractly
+      (engines/c23facts part C: string templates, dicts by reference, closures, path conditions; once with and once without a length): every
+      request, and every RE-request a re-open callback handed to the stream can issue later (its parameters = bytes already delivered, d),
+      must carry `bytes={start+d}-` / `bytes={start+d}-{start+length-1}` - the END stays anchored at the start of the range - or, only
+      without a length and on a path that implies offset 0, no Range at all
   R2  SDK / stream back ends pass (start, length) through unchanged: Azure hands offset=start, length=length to its stream and every
       download_blob call of that stream passes offset=self._offset and length=self._length; local seeks to `start` from the beginning
-      and wraps the file in TruncatedReadableBinaryIO(limit=length) whose read is capped by limit - offset on every path and whose offset
-      advances by the bytes returned; the router delegates open_from(url, start, length=length)
+      and wraps the file in TruncatedReadableBinaryIO(limit=length); EVERY method of that wrapper that takes bytes out of the wrapped file
+      (read, and any readinto / read1 / readline / ... added beside it - the blocking adapter picks reader methods by name) asks for at most
+      limit - offset bytes (what is LEFT of the range; byte counts and destination-buffer clips in linear normal form) on every path and
+      advances offset by what it obtained; the router delegates open_from(url, start, length=length)
   R3  front end: read_range computes n = end - start + [end_inclusive] and uses open_from(url, start, length=n) + readexactly(n);
       read_from uses open_from(url, start) + read(); open_from never reaches _open_from with length == 0 and otherwise forwards
-      (url, start, length=length) unchanged; every readexactly implementation signals UnexpectedEOFError on a short read
+      (url, start, length=length) unchanged and hands the back end's stream to the caller (a wrapper around it is decided by R6 for read-all and
+      otherwise declined); every readexactly implementation of a ReadableStream class under hailtop (closure) signals UnexpectedEOFError on a
+      short read; the blocking readexactly is a set of loops, each in the normal form "continue while O > 0, ask for at most O, count what came,
+      raise when nothing came" (O = the outstanding bytes: a count-down variable or n - a count-up variable; read(k) and readinto(view[a:b])
+      requests), and every value it returns lies behind exactly one such loop
   R0  closure: the set of concrete `_open_from` implementations under hailtop is exactly the analysed one, and every override names
       its positional parameters in the order of the abstract declaration (callers pass url, start positionally, length by keyword)
   R4  buffer accounting inside every buffered stream reader under hailtop (engines/c23facts part A): the representation of "unconsumed
@@ -23,7 +34,12 @@ Decides (from the syntax trees of hailtop/aiotools/fs/{fs,stream}.py, aiotools/{
       function that may be called (class hierarchy, attribute types from __init__, retry / executor combinators, closures) and reports
       any statement that replaces the carrying mapping (`kwargs['headers'] = {...}`), overwrites / removes the entry, or stops
       passing it on, on a path the presence facts do not exclude
-Does not decide: server / SDK behaviour for a well-formed request; seeking inside a truncated stream; transport-level content decoding.
+  R6  read-all contract: for every ReadableStream implementation under hailtop the paths of `read` are enumerated for the abstract case
+      "n is the sentinel -1" (tests on n decided from that, everything else both ways): what is returned must be a constant, a read-all
+      primitive (x.read() / x.read(-1) / x.read(n) with n untouched / x.readall() / a blocking f.read without count), buffered data + such a
+      primitive, or the join of a loop that reads until nothing is left - never the result of ONE bounded `await x.read(k)`, which by the
+      ReadableStream contract returns AT MOST k bytes (read_from and open_from(..., length=L) + read() rely on read-all)
+Does not decide: bounded-read accounting of a stream wrapper placed around every back end (declined); server / SDK behaviour for a well-formed request; seeking inside a truncated stream; transport-level content decoding.
 """
 from __future__ import annotations
 
@@ -38,11 +54,13 @@ META = dict(
     text='Sibling agreement across every concrete _open_from: the HTTP Range templates are normalised (string parts + linear normal form of the end offset) on '
          'every CFG path to the request, SDK back ends are checked for passing (offset, length) unchanged at every download call, and the local truncation '
          'arithmetic and the front-end span arithmetic are compared in linear normal form; the Range carrier is followed (abstract execution over alias groups) from '
-         '_open_from to the request primitive; buffered readers are checked for one consistent representation of their unconsumed bytes. Necessary conditions only.',
+         '_open_from to the request primitive; buffered readers are checked for one consistent representation of their unconsumed bytes; every reader method of the '
+         'local truncating wrapper is capped by the bytes left; blocking exact-read loops are compared with an outstanding-bytes normal form; read(-1) of every stream class is '
+         'path-enumerated for the sentinel case. Necessary conditions only.',
     note='Trusted: CPython ast; engines/pyfacts CFG; engines/linform; engines/c23facts (buffer accounting, delivery); HTTP Range semantics (inclusive end); azure '
          'download_blob(offset, length); file.seek/read; may-call resolution by class hierarchy and __init__ attribute types inside hailtop.aiocloud / aiotools / utils / httpx; '
          'mappings of unknown content merged into headers / params carry no Range / alt entry.',
-    technique='static analysis: sibling agreement, string-template normalisation, linear normal forms, CFG path enumeration, representation-invariant '
+    technique='static analysis: sibling agreement, string-template normalisation, linear normal forms, CFG path enumeration (incl. the abstract case n = read-all sentinel), representation-invariant '
               'consistency of buffer accounting, abstract execution over alias groups along the may-call chain (def-use of the Range carrier)',
     design_ref='DESIGN.md §3 C23',
 )
@@ -146,8 +164,9 @@ def _range_backend(ctx: Ctx, rel: str, cls: str, request_pred, carrier) -> Optio
     val = carrier(req)
     cons = f'{where}::Range'
     if val is None:
-        ctx.bad('R1', cons + '::sent', f'`{pf.nsrc(req)}` carries no Range: the whole object is returned instead of the bytes from `{start}`', m.path, req.lineno)
-        ctx.ok('R1', cons + '::value', 'not evaluated: nothing is sent', nontrivial=False)
+        # the Range is not spelled out at this call: it may sit in a dict built along the way (`**kwargs`), or be built by the callee
+        # from (start, length).  Decide from an abstract execution of _open_from and the functions of this module it calls.
+        _range_events(ctx, rel, cls, fn, where, start, length, request_pred, req)
         return None
     ctx.ok('R1', cons + '::sent', pf.nsrc(val))
 
@@ -237,6 +256,102 @@ def _range_backend(ctx: Ctx, rel: str, cls: str, request_pred, carrier) -> Optio
     return req
 
 
+def _range_events(ctx: Ctx, rel: str, cls: str, fn: pf.FuncDef, where: str, start: str, length: str, request_pred, req: ast.Call) -> None:
+    """R1 for a back end whose Range is assembled out of sight of the request call in `_open_from` (engines/c23facts part C): every
+    request the back end can issue - immediately, or later through a re-open callback it hands to its stream - is an event with the
+    Range template it carries (or none) and the path condition.  Required of every event:
+        no length  ->  `bytes={start + d}-`           (or no Range at all when the path condition says the offset is 0)
+        length     ->  `bytes={start + d}-{start + length - 1}`
+    with d = 0 for the first request and d = the callback's own parameter(s) (bytes already delivered) for a re-request: the END of the
+    range is anchored at the start of the range, it does not move with the offset of a re-request."""
+    m = pf.load(rel)
+    cons = f'{where}::Range'
+    try:
+        uni = c23facts.Universe()
+        ex = c23facts.RangeExec(uni, rel, m.cls(cls), fn, start, length, request_pred)
+        events = ex.run()
+    except c23facts.Decline as e:
+        raise AnalysisError(f'{where}: {e}')
+    ctx.need(events, f'{where}: `{pf.nsrc(req)}` carries no Range and no request that could carry one was found')
+    ctx.unit('range_events', len(events))
+    ctx.unit('range_paths', ex.n_paths)
+    sent_bad: List[Tuple[str, int, str]] = []
+    val_bad: List[Tuple[str, int, str]] = []
+    seen_first = {True: False, False: False}
+    for ev in events:
+        via = ' and '.join((t if pos else f'not ({t})') for t, pos in ev.cond) or 'every path'
+        kind = f're-request through a callback (parameters {", ".join(ev.deferred)})' if ev.deferred else 'request'
+        what = f'{kind} `{pf.nsrc(ev.call)[:90]}` in {ev.where.split("::")[-1]} [{"length given" if ev.given else "no length"}; {via}]'
+        if not ev.deferred:
+            seen_first[ev.given] = True
+        dsum = linform.const(0)
+        for dname in ev.deferred:
+            dsum = dsum + linform.sym(dname)
+        if ev.value is None:
+            # no Range: the whole object.  Equivalent to the open range only without a length and with the offset known to be 0.
+            zero = False
+            for t, pos in ev.cond:
+                try:
+                    te = ast.parse(t, mode='eval').body
+                    if isinstance(te, ast.Compare) and len(te.ops) == 1:
+                        l0 = linform.lin(te.left) - linform.lin(te.comparators[0])
+                        off = linform.sym(start) + dsum
+                        if (isinstance(te.ops[0], ast.Gt) and not pos and l0 == off) or (isinstance(te.ops[0], ast.Eq) and pos and l0 == off) \
+                                or (isinstance(te.ops[0], ast.NotEq) and not pos and l0 == off) or (isinstance(te.ops[0], ast.LtE) and pos and l0 == off):
+                            zero = True
+                    elif pos is False and pf.nsrc(te) == start and not ev.deferred:
+                        zero = True
+                except (SyntaxError, AnalysisError):
+                    continue
+            if ev.given:
+                sent_bad.append((f'{what}: no Range is sent although a length was given: everything from the first byte to the END OF THE OBJECT is returned'
+                                 + (f' (e.g. {start}=0, {length}=1 on a 100-byte object yields 100 bytes)' if zero else ''), ev.call.lineno, ev.file))
+            elif not zero:
+                sent_bad.append((f'{what}: no Range is sent on a path that does not imply {start} == 0: the bytes before `{start}` are returned too', ev.call.lineno, ev.file))
+            continue
+        ctx.need(isinstance(ev.value, c23facts.RxS), f'{where}: the Range of {what} is not a string template the analysis could follow')
+        ps = ev.value.parts  # type: ignore[union-attr]
+        head_ok = len(ps) >= 3 and ps[0] == ('lit', 'bytes=') and ps[1][0] == 'expr' and ps[2] == ('lit', '-')
+        if not head_ok:
+            val_bad.append((f'{what}: the Range value is {ps}; it must begin with bytes={{{start}}}-', ev.call.lineno, ev.file))
+            continue
+        try:
+            dlo = linform.lin(strparts.expr_of(ps[1][1])) - linform.sym(start) - dsum
+        except (AnalysisError, SyntaxError) as e:
+            raise AnalysisError(f'{where}: first byte `{ps[1][1]}` of {what} not linear ({e})')
+        if dlo != linform.const(0):
+            val_bad.append((f'{what}: the first byte requested is `{ps[1][1]}` = {start}{" + " + " + ".join(ev.deferred) if ev.deferred else ""} + ({dlo!r})', ev.call.lineno, ev.file))
+            continue
+        tail = ps[3:]
+        if not ev.given:
+            if tail:
+                val_bad.append((f'{what}: without a length the Range value is {ps}; expected the open range bytes={{{start}}}-', ev.call.lineno, ev.file))
+            continue
+        if len(tail) != 1 or tail[0][0] != 'expr':
+            val_bad.append((f'{what}: with a length the Range value is {ps}: ' + ('the range is open-ended, so everything up to the end of the object is returned' if not tail
+                                                                                 else 'the end offset is not a single expression'), ev.call.lineno, ev.file))
+            continue
+        try:
+            d = linform.lin(strparts.expr_of(tail[0][1])) - (linform.sym(start) + linform.sym(length) - linform.const(1))
+        except (AnalysisError, SyntaxError) as e:
+            raise AnalysisError(f'{where}: end offset `{tail[0][1]}` of {what} not linear ({e})')
+        if d != linform.const(0):
+            moved = ev.deferred and set(d.symbols()) <= set(ev.deferred)
+            val_bad.append((f'{what}: the last byte requested is `{tail[0][1]}` = {start} + {length} - 1 + ({d!r}): '
+                            + (f'the END of the range moves with the re-request offset - after {ev.deferred[0]} bytes have been delivered the stream goes on for {ev.deferred[0]} bytes '
+                               f'beyond the range (e.g. {start}=0, {length}=4, body cut after 2 bytes: the re-request asks for bytes=2-5 and the caller receives 6 bytes)' if moved else
+                               'HTTP ranges are inclusive on both ends, the wrong span is returned'), ev.call.lineno, ev.file))
+    ctx.need(seen_first[True] and seen_first[False] or sent_bad or val_bad, f'{where}: not every case (with / without length) reaches a request')
+    if sent_bad:
+        ctx.bad('R1', cons + '::sent', sent_bad[0][0] + (f' (+{len(sent_bad) - 1} more)' if len(sent_bad) > 1 else ''), sent_bad[0][2], sent_bad[0][1], extra=[x[0] for x in sent_bad[:6]])
+    else:
+        ctx.ok('R1', cons + '::sent', {'events': len(events)})
+    if val_bad:
+        ctx.bad('R1', cons + '::value', val_bad[0][0] + (f' (+{len(val_bad) - 1} more)' if len(val_bad) > 1 else ''), val_bad[0][2], val_bad[0][1], extra=[x[0] for x in val_bad[:6]])
+    else:
+        ctx.ok('R1', cons + '::value', {'events': len(events), 're-requests': sum(1 for e in events if e.deferred)})
+
+
 def _gcs_pred(c: ast.Call) -> bool:
     return isinstance(c.func, ast.Attribute) and c.func.attr == 'get_object'
 
@@ -317,7 +432,157 @@ def _azure(ctx: Ctx) -> None:
                            f'returns the bytes s .. s+n-1, i.e. data beyond the requested range, while `read()` on the same stream honours the length')
                 ctx.check(ok_off and ok_len, 'R2', cons, msg, m.path, dc.lineno)
     ctx.need(n >= 1, f'{AZ}::{sname}: no download_blob call')
+    _offset_length_typestate(ctx, m, sname, stored['offset'], stored['length'])
     ctx.unit('functions', 3)
+
+
+def _offset_length_typestate(ctx: Ctx, m: pf.Module, sname: str, off_attr: str, len_attr: str) -> None:
+    """A stream object that keeps (offset, length) of its range and ADVANCES the offset by the bytes it has handed out must not send the
+    pair to the service again with the length of the WHOLE range: the end of the download slides behind the range by the bytes consumed.
+    Typestate over the fields `read` tests (None / set, unknown splits both ways) plus one bit "offset advanced, length not reduced in
+    step"; the calls read(k) / read() are applied in any order until no new state appears; a `download_blob(offset=self.<offset>,
+    length=self.<length>)` that is reachable with the bit set is reported with the call history that reaches it."""
+    rd = m.func(f'{sname}.read')
+    where = f'{AZ}::{sname}.read'
+    ps = [a.arg for a in rd.args.args]
+    ctx.need(len(ps) == 2, f'{where}: signature changed')
+    nparam = ps[1]
+    f_off, f_len = f'self.{off_attr}', f'self.{len_attr}'
+    g = pf.cfg(rd)
+
+    def tested_attr(t: ast.AST) -> Optional[Tuple[str, bool]]:
+        """(attribute, test is true when the attribute is set/truthy)"""
+        neg = False
+        while isinstance(t, ast.UnaryOp) and isinstance(t.op, ast.Not):
+            neg, t = not neg, t.operand
+        if isinstance(t, ast.Compare) and len(t.ops) == 1 and isinstance(t.comparators[0], ast.Constant) and t.comparators[0].value is None and isinstance(t.ops[0], (ast.Is, ast.IsNot)):
+            if isinstance(t.ops[0], ast.Is):
+                neg = not neg
+            t = t.left
+        elif isinstance(t, ast.Compare):
+            return None
+        if isinstance(t, ast.Attribute) and isinstance(t.value, ast.Name) and t.value.id == 'self':
+            return t.attr, not neg
+        return None
+
+    tracked = sorted({ta[0] for nd in g.nodes if nd.kind == 'test' and nd.ast is not None for ta in [tested_attr(nd.ast)] if ta is not None})
+    # other methods must not touch what the typestate tracks
+    cls = m.cls(sname)
+    for f in cls.body:
+        if isinstance(f, (ast.FunctionDef, ast.AsyncFunctionDef)) and f.name not in ('__init__', 'read', '_wait_closed', 'close'):
+            for x in ast.walk(f):
+                tgt = [x.target] if isinstance(x, (ast.AugAssign, ast.AnnAssign)) else (x.targets if isinstance(x, ast.Assign) else [])
+                for t in tgt:
+                    ctx.need(not (isinstance(t, ast.Attribute) and pf.nsrc(t.value) == 'self' and t.attr in tracked + [off_attr, len_attr]),
+                             f'{AZ}::{sname}.{f.name}: writes self.{getattr(t, "attr", "")}, which the typestate of read() tracks; not analysed')
+    init = m.func(f'{sname}.__init__')
+    st0: Dict[str, str] = {a: 'U' for a in tracked}
+    for st in _stmts(init):
+        tgt = st.targets[0] if isinstance(st, ast.Assign) and len(st.targets) == 1 else getattr(st, 'target', None)
+        val = getattr(st, 'value', None)
+        if isinstance(tgt, ast.Attribute) and pf.nsrc(tgt.value) == 'self' and tgt.attr in tracked and val is not None:
+            st0[tgt.attr] = ('N' if not val.value else 'S') if isinstance(val, ast.Constant) else 'U'
+    State = Tuple[Tuple[Tuple[str, str], ...], bool]
+
+    def freeze(d: Dict[str, str], slid: bool) -> State:
+        return tuple(sorted(d.items())), slid
+
+    def step_len_in_block(aug: ast.AugAssign) -> bool:
+        """`self.<length> -= <same amount>` next to the advance (same statement list), possibly under `if self.<length> is not None`."""
+        par = m.parents()
+        blk = par.get(aug)
+        for fld in ('body', 'orelse', 'finalbody'):
+            lst = getattr(blk, fld, None)
+            if isinstance(lst, list) and aug in lst:
+                for sib in lst:
+                    for x in ast.walk(sib):
+                        if isinstance(x, ast.AugAssign) and isinstance(x.op, ast.Sub) and pf.nsrc(x.target) == f_len and pf.nsrc(x.value) == pf.nsrc(aug.value):
+                            return True
+        return False
+
+    hits: Dict[int, Tuple[ast.Call, List[str]]] = {}
+    history: Dict[State, List[str]] = {freeze(st0, False): []}
+    work: List[State] = [freeze(st0, False)]
+    n_states = 0
+    while work:
+        s0 = work.pop(0)
+        n_states += 1
+        ctx.need(n_states < 400, f'{where}: typestate does not converge')
+        for case in ('sentinel', 'count'):
+            label = 'read()' if case == 'sentinel' else 'read(k)'
+            seen = set()
+            stack: List[Tuple[pf.Node, State, bool]] = [(g.entry, s0, True)]  # (node, state, n still the argument)
+            while stack:
+                nd, stt, n_arg = stack.pop()
+                key = (nd.id, stt, n_arg)
+                if key in seen:
+                    continue
+                seen.add(key)
+                d, slid = dict(stt[0]), stt[1]
+                a = nd.ast
+                if nd.kind == 'return' or nd is g.exit:
+                    fs = freeze(d, slid)
+                    if fs not in history:
+                        history[fs] = history[s0] + [label]
+                        work.append(fs)
+                    continue
+                for c in pf.node_calls(nd):
+                    if isinstance(c.func, ast.Attribute) and c.func.attr == 'download_blob':
+                        kw = {k.arg: pf.nsrc(k.value) for k in c.keywords if k.arg}
+                        if slid and kw.get('offset') == f_off and kw.get('length') == f_len and id(c) not in hits:
+                            hits[id(c)] = (c, history[s0] + [label])
+                branch: Optional[bool] = None
+                split_attr: Optional[Tuple[str, bool]] = None
+                if nd.kind == 'test' and a is not None:
+                    if nparam in pf.names_in(a) and n_arg:
+                        if case == 'sentinel':
+                            branch = _sentinel_truth(a, nparam)
+                        elif isinstance(a, ast.Compare) and len(a.ops) == 1 and pf.nsrc(a.left) == nparam and pf.nsrc(a.comparators[0]) == '-1' and isinstance(a.ops[0], (ast.Eq, ast.NotEq)):
+                            branch = isinstance(a.ops[0], ast.NotEq)
+                    else:
+                        ta = tested_attr(a)
+                        if ta is not None and ta[0] in d:
+                            if d[ta[0]] == 'U':
+                                split_attr = ta
+                            else:
+                                branch = (d[ta[0]] == 'S') == ta[1]
+                elif nd.kind == 'stmt' and a is not None:
+                    for x in ([a] if isinstance(a, (ast.Assign, ast.AugAssign, ast.AnnAssign)) else []):
+                        tgts = x.targets if isinstance(x, ast.Assign) else [x.target]
+                        for t in tgts:
+                            if isinstance(t, ast.Name) and t.id == nparam:
+                                n_arg = False
+                            if isinstance(t, ast.Attribute) and pf.nsrc(t.value) == 'self':
+                                if t.attr in d and not isinstance(x, ast.AugAssign):
+                                    v = x.value
+                                    d[t.attr] = ('N' if not v.value else 'S') if isinstance(v, ast.Constant) else 'S'
+                                if t.attr == off_attr and isinstance(x, ast.AugAssign) and isinstance(x.op, ast.Add) and not step_len_in_block(x):
+                                    slid = True
+                                if t.attr == off_attr and isinstance(x, ast.Assign) and off_attr in d and not isinstance(x.value, ast.Constant):
+                                    ctx.need(False, f'{where}: `{pf.nsrc(x)}` not recognised')
+                                if t.attr == len_attr and not (isinstance(x, ast.AugAssign) and isinstance(x.op, ast.Sub)):
+                                    ctx.need(False, f'{where}: `{pf.nsrc(x)}` not recognised')
+                for nxt, lab in nd.succ:
+                    if lab == 'exc' or nxt is g.raise_exit or nxt.kind == 'raise':
+                        continue
+                    if branch is not None and lab in ('T', 'F') and (lab == 'T') != branch:
+                        continue
+                    d2 = d
+                    if split_attr is not None and lab in ('T', 'F'):
+                        d2 = dict(d)
+                        d2[split_attr[0]] = 'S' if (lab == 'T') == split_attr[1] else 'N'
+                    stack.append((nxt, freeze(d2, slid), n_arg))
+    ctx.unit('typestates', len(history))
+    cons0 = f'{where}::download_blob(offset, length) after the offset advanced'
+    if not hits:
+        ctx.ok('R2', cons0, {'tracked': tracked, 'states': len(history)})
+    for c, hist in hits.values():
+        guards = [x for x in ast.walk(rd) if isinstance(x, ast.If) and any(y is c for b in x.body for y in ast.walk(b))]
+        guard = pf.nsrc(guards[-1].test) if guards else 'unconditional'
+        ctx.bad('R2', f'{where}::download_blob under `if {guard}`::length follows the advancing offset',
+                f'`{pf.nsrc(c)}` is reachable after `{f_off} += ...` (history: {"; ".join(hist)}): the offset has moved forward by the bytes handed out but `{f_len}` is still the '
+                f'length of the WHOLE range, so the download ends that many bytes behind the range - open_from(url, 10, length=5), read(2), read() returns the bytes 12..16, two of them '
+                f'beyond the range 10..14', m.path, c.lineno)
 
 
 def _local(ctx: Ctx) -> None:
@@ -370,52 +635,197 @@ def _local(ctx: Ctx) -> None:
         ctx.check(lim == [length] and miss is None and extra is None, 'R2', tcons,
                   (f'the limit is `{lim}`, not `{length}`' if lim != [length] else
                    f'with a length there is a path to the return that skips the wrapper' if miss is not None else f'the stream is truncated although no length was given'), m.path, w.lineno)
-    # the wrapper itself
-    twhere = f'{LOC}::TruncatedReadableBinaryIO'
-    init = m.func('TruncatedReadableBinaryIO.__init__')
+    _truncating_wrapper(ctx, m)
+    ctx.unit('functions', 3)
+
+
+# sync readers of a file object: the first argument is a byte count (at most that many bytes are returned) ...
+_SIZE_READERS = ('read', 'read1', 'readline', 'peek')
+# ... or a destination buffer (at most len(buffer) bytes are stored, the count is returned)
+_INTO_READERS = ('readinto', 'readinto1')
+# ... or there is no bound at all
+_UNBOUNDED_READERS = ('readall', 'readlines', '__next__', '__iter__')
+
+
+def _with_bindings(fn: pf.FuncDef) -> Dict[str, ast.AST]:
+    """`with <expr> as name` bindings of a function (name -> context expression)."""
+    out: Dict[str, ast.AST] = {}
+    for n in pf.walk_shallow(fn):
+        if isinstance(n, (ast.With, ast.AsyncWith)):
+            for it in n.items:
+                if isinstance(it.optional_vars, ast.Name):
+                    out[it.optional_vars.id] = it.context_expr
+    return out
+
+
+def _is_memoryview_of(fn: pf.FuncDef, e: ast.AST, depth: int = 3) -> Optional[ast.AST]:
+    """The object `e` is a memoryview of (through `with memoryview(b) as v` / `v = memoryview(b)`), else None."""
+    if depth <= 0:
+        return None
+    if isinstance(e, ast.Call) and pf.dotted(e.func) == 'memoryview' and len(e.args) == 1 and not e.keywords:
+        return e.args[0]
+    if isinstance(e, ast.Name):
+        d = pf.single_def(fn, e.id)
+        if isinstance(d, ast.withitem):
+            return _is_memoryview_of(fn, d.context_expr, depth - 1)
+        if isinstance(d, ast.expr):
+            return _is_memoryview_of(fn, d, depth - 1)
+    return None
+
+
+def _cap_verdict(e: ast.AST, remaining: 'linform.Lin', env: Dict[str, ast.AST]) -> Tuple[Optional[bool], str]:
+    """Is the byte count `e` at most `remaining` for every state?  (True, '') / (False, why) / (None, why not decided).
+    `min(a, b)` is capped when one operand is; anything else must equal `remaining` in linear normal form."""
+    if isinstance(e, ast.Call) and pf.dotted(e.func) == 'min' and e.args and not e.keywords and not any(isinstance(a, ast.Starred) for a in e.args):
+        sub = [_cap_verdict(a, remaining, env) for a in e.args]
+        if any(v is True for v, _ in sub):
+            return True, ''
+        if all(v is False for v, _ in sub):
+            return False, f'no operand of `{pf.nsrc(e)}` is `{remaining!r}`'
+        return None, f'`{pf.nsrc(e)}` not decided'
+    if isinstance(e, ast.IfExp):
+        sub = [_cap_verdict(a, remaining, env) for a in (e.body, e.orelse)]
+        if all(v is True for v, _ in sub):
+            return True, ''
+        if any(v is False for v, _ in sub):
+            return False, [w for v, w in sub if v is False][0]
+        return None, f'`{pf.nsrc(e)}` not decided'
+    try:
+        d = linform.lin(e, env) - remaining
+    except AnalysisError as ex:
+        return None, f'`{pf.nsrc(e)}` is not linear ({ex})'
+    if d == linform.const(0):
+        return True, ''
+    if d.is_const() and d.const < 0:
+        return True, ''
+    return False, f'`{pf.nsrc(e)}` = {remaining!r} + ({d!r})'
+
+
+def _truncating_wrapper(ctx: Ctx, m: pf.Module) -> None:
+    """TruncatedReadableBinaryIO(bio, limit): EVERY method that takes bytes out of `self.bio` asks for at most limit - offset bytes
+    (what is LEFT of the range, not the length of the whole range) and advances `offset` by what it obtained.  The blocking stream
+    adapter picks the reader method by name (read, and readinto when the file object has one), so a second reader method is a second way
+    out of the range."""
+    cname = 'TruncatedReadableBinaryIO'
+    twhere = f'{LOC}::{cname}'
+    cls = m.cls(cname)
+    init = m.func(f'{cname}.__init__')
     ia = {}
     for st in _stmts(init):
         if isinstance(st, ast.Assign) and len(st.targets) == 1 and isinstance(st.targets[0], ast.Attribute) and pf.nsrc(st.targets[0].value) == 'self':
             ia[st.targets[0].attr] = pf.nsrc(st.value)
     ctx.check(ia.get('offset') == '0' and ia.get('limit') == 'limit', 'R2', f'{twhere}.__init__', f'starts with offset={ia.get("offset")}, limit={ia.get("limit")}; expected 0 and the given limit',
               m.path, init.lineno)
-    rd = m.func('TruncatedReadableBinaryIO.read')
-    rg = pf.cfg(rd)
-    nparam = rd.args.args[1].arg
-    reads = [c for c in pf.calls_in(rd) if pf.dotted(c.func) == 'self.bio.read']
-    ctx.need(len(reads) == 1 and len(reads[0].args) == 1 and isinstance(reads[0].args[0], ast.Name), f'{twhere}.read: expected one self.bio.read(<name>)')
-    av = reads[0].args[0].id
-    RD = rg.node_of(reads[0])[0]
+    ctx.need(ia.get('bio') == 'bio', f'{twhere}.__init__: the wrapped file is not stored as self.bio')
+    methods = [st for st in cls.body if isinstance(st, (ast.FunctionDef, ast.AsyncFunctionDef))]
+    for f in methods:
+        ctx.need(f.name not in ('__getattr__', '__getattribute__'), f'{twhere}.{f.name}: attribute forwarding makes every reader method of the wrapped file reachable; not analysed')
+    for st in cls.body:
+        if isinstance(st, (ast.Assign, ast.AnnAssign)):
+            v = st.value
+            ctx.need(v is None or not any(isinstance(x, ast.Attribute) and x.attr in _SIZE_READERS + _INTO_READERS + _UNBOUNDED_READERS for x in ast.walk(v)),
+                     f'{twhere}: class-level alias of a reader method `{pf.nsrc(st)}` not analysed')
     remaining = linform.sym('self.limit') - linform.sym('self.offset')
-    defs = [st for st in _stmts(rd) if isinstance(st, ast.Assign) and len(st.targets) == 1 and isinstance(st.targets[0], ast.Name) and st.targets[0].id == av]
-    bad_defs = []
-    for d in defs:
-        v = d.value
-        ok = False
-        try:
-            if isinstance(v, ast.Call) and pf.dotted(v.func) == 'min' and len(v.args) == 2 and not v.keywords:
-                ls = [linform.lin(a) for a in v.args]
-                ok = any(x == remaining for x in ls)
+    n_readers = 0
+    for rd in methods:
+        if rd.name == '__init__':
+            continue
+        calls = [c for c in pf.calls_in(rd, into_nested_defs=True) if isinstance(c.func, ast.Attribute) and pf.nsrc(c.func.value) == 'self.bio'
+                 and c.func.attr in _SIZE_READERS + _INTO_READERS + _UNBOUNDED_READERS]
+        # a bound reader taken as a value (`f = self.bio.readinto`) is called out of sight
+        taken = [x for x in ast.walk(rd) if isinstance(x, ast.Attribute) and pf.nsrc(x.value) == 'self.bio' and x.attr in _SIZE_READERS + _INTO_READERS + _UNBOUNDED_READERS
+                 and not any(c.func is x for c in calls)]
+        ctx.need(not taken, f'{twhere}.{rd.name}: `{pf.nsrc(taken[0]) if taken else ""}` is used as a value; not analysed')
+        if not calls:
+            continue
+        n_readers += 1
+        mwhere = f'{twhere}.{rd.name}'
+        ctx.need(len(calls) == 1, f'{mwhere}: expected one read from self.bio, found {len(calls)}')
+        call = calls[0]
+        kind = call.func.attr  # type: ignore[attr-defined]
+        rg = pf.cfg(rd)
+        cn = rg.node_of(call)
+        ctx.need(len(cn) == 1, f'{mwhere}: read node')
+        RD = cn[0]
+        ctx.need(not call.keywords and not any(isinstance(a, ast.Starred) for a in call.args), f'{mwhere}: `{pf.nsrc(call)}` keyword/star arguments')
+        cap_cons = f'{mwhere}::capped by limit - offset'
+        beyond = ('after k bytes of the range have been handed out (offset = k > 0) a call can return up to k bytes of the file that lie beyond the range, '
+                  'e.g. open_from(url, s, length=L): readexactly(4) then readexactly(L) yields L bytes, the last 4 from behind the range, instead of UnexpectedEOFError')
+        if kind in _UNBOUNDED_READERS:
+            ctx.bad('R2', cap_cons, f'`{pf.nsrc(call)}` reads to the end of the FILE: the limit is not applied at all', m.path, call.lineno)
+        elif kind in _SIZE_READERS:
+            params = [a.arg for a in rd.args.args][1:]
+            nparam = params[0] if params else None
+            if not call.args or (isinstance(call.args[0], ast.Constant) and call.args[0].value in (-1, None)) or \
+                    (isinstance(call.args[0], ast.UnaryOp) and pf.nsrc(call.args[0]) == '-1'):
+                ctx.bad('R2', cap_cons, f'`{pf.nsrc(call)}` asks for everything up to the end of the FILE: the limit is not applied', m.path, call.lineno)
+            elif isinstance(call.args[0], ast.Name):
+                av = call.args[0].id
+                defs = [st for st in _stmts(rd) if isinstance(st, ast.Assign) and len(st.targets) == 1 and isinstance(st.targets[0], ast.Name) and st.targets[0].id == av]
+                other = [v for v in pf.assignments(rd).get(av, []) if not isinstance(v, ast.arg) and not any(v is d.value for d in defs)]
+                ctx.need(not other, f'{mwhere}: `{av}` is bound in a way that is not recognised')
+                bad_defs, undecided = [], []
+                for d in defs:
+                    v, why = _cap_verdict(pf.expand_locals(rd, d.value), remaining, {})
+                    if v is False:
+                        bad_defs.append((d, why))
+                    elif v is None:
+                        undecided.append(why)
+                capped = bool(defs) and rg.dominated_by(RD, lambda n: any(n.ast is d for d in defs))
+                if bad_defs:
+                    ctx.bad('R2', cap_cons, f'`{pf.nsrc(bad_defs[0][0])}` is not `self.limit - self.offset` or `min(self.limit - self.offset, {nparam})` ({bad_defs[0][1]}): '
+                            f'the read can pass the end of the range - {beyond}', m.path, bad_defs[0][0].lineno)
+                elif not capped:
+                    ctx.bad('R2', cap_cons, f'there is a path to `{pf.nsrc(call)}` on which `{av}` is not capped by the remaining bytes: {beyond}', m.path, rd.lineno)
+                else:
+                    ctx.need(not undecided, f'{mwhere}: {undecided[0] if undecided else ""}')
+                    ctx.ok('R2', cap_cons, {'count': av, 'definitions': [pf.nsrc(d) for d in defs]})
             else:
-                ok = linform.lin(v) == remaining
-        except AnalysisError:
-            ok = False
-        if not ok:
-            bad_defs.append(pf.nsrc(d))
-    capped = bool(defs) and rg.dominated_by(RD, lambda n: any(n.ast is d for d in defs))
-    ctx.check(capped and not bad_defs, 'R2', f'{twhere}.read::capped by limit - offset',
-              (f'`{bad_defs[0]}` is not `self.limit - self.offset` or `min(self.limit - self.offset, {nparam})`: the read can pass the end of the range' if bad_defs else
-               f'there is a path to `{pf.nsrc(reads[0])}` on which `{av}` is not capped by the remaining bytes'), m.path, rd.lineno)
-    res = [st for st in _stmts(rd) if isinstance(st, ast.Assign) and st.value is reads[0] and isinstance(st.targets[0], ast.Name)]
-    ctx.need(len(res) == 1, f'{twhere}.read: result of the read is not bound')
-    bv = res[0].targets[0].id
-    adv = [st for st in _stmts(rd) if isinstance(st, ast.AugAssign) and pf.nsrc(st.target) == 'self.offset' and isinstance(st.op, ast.Add)]
-    rret = [st for st in _stmts(rd) if isinstance(st, ast.Return)]
-    ctx.need(len(rret) == 1, f'{twhere}.read: expected one return')
-    RR = [n for n in rg.nodes if n.ast is rret[0]][0]
-    ok = len(adv) == 1 and pf.nsrc(adv[0].value) == f'len({bv})' and rg.dominated_by(RR, lambda n: n.ast is adv[0]) and pf.nsrc(rret[0].value) == bv
-    ctx.check(ok, 'R2', f'{twhere}.read::offset advances by the bytes returned', f'`self.offset` is not advanced by len({bv}) before `{pf.nsrc(rret[0])}`: later reads pass the limit', m.path, rd.lineno)
-    ctx.unit('functions', 3)
+                v, why = _cap_verdict(pf.expand_locals(rd, call.args[0]), remaining, {})
+                ctx.need(v is not None, f'{mwhere}: {why}')
+                ctx.check(bool(v), 'R2', cap_cons, f'`{pf.nsrc(call)}`: the count is not capped by `self.limit - self.offset` ({why}): {beyond}', m.path, call.lineno)
+        else:
+            ctx.need(len(call.args) == 1, f'{mwhere}: `{pf.nsrc(call)}` not recognised')
+            a0 = call.args[0]
+            if isinstance(a0, ast.Name):
+                d0 = pf.single_def(rd, a0.id)
+                if isinstance(d0, ast.expr) and isinstance(d0, ast.Subscript):
+                    a0 = d0
+            if isinstance(a0, ast.Subscript) and isinstance(a0.slice, ast.Slice):
+                base = _is_memoryview_of(rd, a0.value)
+                ctx.need(base is not None, f'{mwhere}: `{pf.nsrc(a0)}` slices something that is not a memoryview (a copy would be filled); not analysed')
+                sl = a0.slice
+                ctx.need(sl.step is None and (sl.lower is None or pf.nsrc(sl.lower) == '0'), f'{mwhere}: slice `{pf.nsrc(a0)}` not recognised')
+                if sl.upper is None:
+                    ctx.bad('R2', cap_cons, f'`{pf.nsrc(call)}` fills the whole destination buffer: the limit is not applied - {beyond}', m.path, call.lineno)
+                else:
+                    up = pf.expand_locals(rd, sl.upper)
+                    v, why = _cap_verdict(up, remaining, {})
+                    ctx.need(v is not None, f'{mwhere}: {why}')
+                    ctx.check(bool(v), 'R2', cap_cons,
+                              f'`{pf.nsrc(call)}` clips the destination buffer to `{pf.nsrc(sl.upper)}` bytes, not to what is LEFT of the range, `self.limit - self.offset` ({why}): {beyond}',
+                              m.path, call.lineno, detail={'clip': pf.nsrc(up)})
+            else:
+                is_param = isinstance(a0, ast.Name) and isinstance(pf.single_def(rd, a0.id), ast.arg)
+                whole = is_param or (_is_memoryview_of(rd, a0) is not None)
+                ctx.need(whole, f'{mwhere}: destination `{pf.nsrc(a0)}` not recognised')
+                ctx.bad('R2', cap_cons, f'`{pf.nsrc(call)}` fills the whole destination buffer, however long: the limit is not applied - {beyond}', m.path, call.lineno)
+        # offset advances by what was obtained, before every normal exit after the read
+        adv_cons = f'{mwhere}::offset advances by the bytes returned'
+        res = [st for st in _stmts(rd) if isinstance(st, ast.Assign) and st.value is call and len(st.targets) == 1 and isinstance(st.targets[0], ast.Name)]
+        ctx.need(len(res) == 1, f'{mwhere}: result of the read is not bound to a name')
+        bv = res[0].targets[0].id  # type: ignore[attr-defined]
+        ctx.need(len(pf.assignments(rd).get(bv, [])) == 1, f'{mwhere}: `{bv}` is rebound')
+        amount = bv if kind in _INTO_READERS else f'len({bv})'
+        adv = [st for st in _stmts(rd) if isinstance(st, ast.AugAssign) and pf.nsrc(st.target) == 'self.offset' and isinstance(st.op, ast.Add)]
+        sets = [st for st in _stmts(rd) if isinstance(st, ast.Assign) and any(pf.nsrc(t) == 'self.offset' for t in st.targets)]
+        ctx.need(not sets, f'{mwhere}: `{pf.nsrc(sets[0]) if sets else ""}` not recognised')
+        rrets = [n for n in rg.nodes if n.kind == 'return' and n.id in rg.reachable_from(RD)]
+        ctx.need(rrets, f'{mwhere}: no return after the read')
+        ok = len(adv) == 1 and pf.nsrc(adv[0].value) == amount and all(rg.dominated_by(r, lambda n: n.ast is adv[0]) for r in rrets) \
+            and all(pf.nsrc(r.ast.value) == bv for r in rrets if r.ast is not None and getattr(r.ast, 'value', None) is not None)  # type: ignore[union-attr]
+        ctx.check(ok, 'R2', adv_cons, f'`self.offset` is not advanced by {amount} before `{rrets[0].text()}`: later reads pass the limit', m.path, rd.lineno)
+    ctx.need(n_readers >= 1, f'{twhere}: no method reads from self.bio')
 
 
 def _router(ctx: Ctx) -> None:
@@ -449,7 +859,205 @@ def _with_call(fn: pf.FuncDef, attr: str) -> Optional[Tuple[ast.Call, Optional[s
     return None
 
 
-def _front(ctx: Ctx) -> None:
+_READ_METHODS = _SIZE_READERS + _INTO_READERS
+
+
+def _reader_of(f: pf.FuncDef, call: ast.Call) -> Optional[str]:
+    """The file-object reader method a call goes to: `X.read(..)`, `X.readinto(..)`, or a local bound to `X.readinto` /
+    `getattr(X, 'readinto'[, default])`."""
+    fn = call.func
+    if isinstance(fn, ast.Attribute) and fn.attr in _READ_METHODS:
+        return fn.attr
+    if isinstance(fn, ast.Name):
+        d = pf.single_def(f, fn.id)
+        if isinstance(d, ast.Attribute) and d.attr in _READ_METHODS:
+            return d.attr
+        if isinstance(d, ast.Call) and pf.dotted(d.func) == 'getattr' and len(d.args) in (2, 3) and not d.keywords and pf.const_str(d.args[1]) in _READ_METHODS:
+            return pf.const_str(d.args[1])
+    return None
+
+
+def _is_eof_raise(st: ast.stmt) -> bool:
+    return isinstance(st, ast.Raise) and st.exc is not None and (pf.dotted(st.exc.func if isinstance(st.exc, ast.Call) else st.exc) or '').split('.')[-1] == 'UnexpectedEOFError'
+
+
+def _exact_read_loops(ctx: Ctx, mm: pf.Module, qual: str) -> None:
+    """A blocking `readexactly(n)` built from loops over an at-most reader: every value-returning exit lies behind ONE loop that
+      * continues exactly while bytes are outstanding (O > 0; O = the count-down variable, or n - <count-up variable>),
+      * asks the file for at most O bytes (`read(k)`: k <= O; `readinto(view[a:b])`: capacity <= O and a = the bytes already stored),
+      * counts what it obtained (len(block) / the count readinto returns) into O,
+      * raises UnexpectedEOFError when the file returns nothing, and is left in no other way.
+    Decided per loop in linear normal form; unrecognised loop shapes are declined."""
+    f = mm.func(qual)
+    where = f'{mm.rel}::{qual}'
+    ctx.need(len(f.args.args) == 2, f'{where}: signature changed')
+    nparam = f.args.args[1].arg
+    g = pf.cfg(f)
+    loops = [st for st in pf.walk_shallow(f) if isinstance(st, ast.While)]
+    ctx.need(loops and not any(isinstance(st, (ast.For, ast.AsyncFor)) for st in pf.walk_shallow(f)), f'{where}: expected while loop(s) over the file reader, found {len(loops)}')
+    heads: Dict[int, pf.Node] = {}
+    accs: Dict[int, Tuple[str, str]] = {}  # loop -> (reader kind, what holds the data)
+    for lp in loops:
+        ctx.need(not lp.orelse, f'{where}: while/else not recognised')
+        hn = [n for n in g.nodes if n.kind == 'test' and n.ast is lp.test]
+        ctx.need(len(hn) == 1, f'{where}: loop head node')
+        heads[id(lp)] = hn[0]
+        cons = f'{where}::while {pf.nsrc(lp.test)}::reads until n bytes'
+        inner = [st for st in ast.walk(lp) if isinstance(st, (ast.While, ast.For, ast.AsyncFor)) and st is not lp]
+        ctx.need(not inner, f'{where}: nested loops not recognised')
+        calls = [(c, _reader_of(f, c)) for c in pf.calls_in(lp)]
+        calls = [(c, k) for c, k in calls if k is not None]
+        ctx.need(len(calls) == 1, f'{where}: expected one read in the loop `while {pf.nsrc(lp.test)}`, found {len(calls)}')
+        call, kind = calls[0]
+        ctx.need(not call.keywords and not any(isinstance(a, ast.Starred) for a in call.args), f'{where}: `{pf.nsrc(call)}` keyword/star arguments')
+        res = [st for st in lp.body if isinstance(st, ast.Assign) and (st.value is call or isinstance(st.value, ast.Await) and st.value.value is call)
+               and len(st.targets) == 1 and isinstance(st.targets[0], ast.Name)]
+        ctx.need(len(res) == 1, f'{where}: the result of `{pf.nsrc(call)}` is not bound to a name at the top of the loop body')
+        rv = res[0].targets[0].id  # type: ignore[attr-defined]
+        ctx.need(len(pf.assignments(f).get(rv, [])) == 1, f'{where}: `{rv}` is bound more than once')
+        amount = rv if kind in _INTO_READERS else f'len({rv})'
+        # --- progress: the outstanding count O
+        augs = [st for st in lp.body if isinstance(st, ast.AugAssign) and isinstance(st.target, ast.Name) and isinstance(st.op, (ast.Add, ast.Sub))]
+        prog = [st for st in augs if pf.nsrc(st.value) == amount]
+        problems: List[str] = []
+        line = lp.lineno
+        if len(prog) != 1:
+            other = [st for st in ast.walk(lp) if isinstance(st, (ast.AugAssign, ast.Assign)) and st not in prog and st is not res[0]
+                     and any(isinstance(t, ast.Name) and t.id in pf.names_in(lp.test) for t in ([st.target] if isinstance(st, ast.AugAssign) else st.targets))]
+            ctx.need(not prog and augs and not [o for o in other if o not in augs], f'{where}: progress statement of the loop `while {pf.nsrc(lp.test)}` not recognised')
+            ctx.bad('R3', cons, f'the loop counts `{pf.nsrc(augs[0])}` per iteration, not the {amount} bytes it obtained from `{pf.nsrc(call)}`: it stops before / after {nparam} bytes have been read',
+                    mm.path, augs[0].lineno)
+            continue
+        st_p = prog[0]
+        X = st_p.target.id  # type: ignore[attr-defined]
+        others = [v for v in pf.assignments(f).get(X, []) if v is not st_p]
+        if isinstance(st_p.op, ast.Sub):
+            if X == nparam:
+                ctx.need(all(isinstance(v, ast.arg) for v in others), f'{where}: `{X}` is rebound')
+            else:
+                ctx.need(len(others) == 1 and isinstance(others[0], ast.Name) and others[0].id == nparam, f'{where}: count-down variable `{X}` does not start at `{nparam}`')
+            O = linform.sym(X)
+            stored = linform.sym(nparam + '@entry') - O  # bytes obtained so far (only used for readinto positions)
+            total = None
+        else:
+            ctx.need(len(others) == 1 and isinstance(others[0], ast.Constant) and others[0].value == 0 and not isinstance(others[0].value, bool)
+                     and not any(others[0] is getattr(x, 'value', None) for x in ast.walk(lp)), f'{where}: count-up variable `{X}` does not start at 0 before the loop')
+            # n itself must be constant for this loop: no assignment to it reaches the loop head
+            for v in pf.assignments(f).get(nparam, []):
+                if isinstance(v, ast.arg):
+                    continue
+                vn = g.node_of(v)
+                ctx.need(vn and all(hn[0].id not in g.reachable_from(x) for x in vn), f'{where}: `{nparam}` is modified on a path into the loop `while {pf.nsrc(lp.test)}`')
+            O = linform.sym(nparam) - linform.sym(X)
+            stored = linform.sym(X)
+            total = linform.sym(nparam)
+        # --- loop condition: O > 0
+        try:
+            cond = linform.cmp_le0(lp.test)
+        except AnalysisError:
+            cond = None
+        ctx.need(cond is not None, f'{where}: loop condition `{pf.nsrc(lp.test)}` not recognised')
+        dc = cond - (linform.const(1) - O)
+        ctx.need(dc.is_const(), f'{where}: loop condition `{pf.nsrc(lp.test)}` is not a test of the outstanding bytes `{O!r}`')
+        if dc.const < 0:
+            problems.append(f'`while {pf.nsrc(lp.test)}` still iterates when {O!r} = {-dc.const - 1 if dc.const < -1 else 0}: the read of 0 outstanding bytes returns nothing and a COMPLETE read raises UnexpectedEOFError')
+        elif dc.const > 0:
+            problems.append(f'`while {pf.nsrc(lp.test)}` stops while {dc.const} byte(s) are still outstanding: {dc.const} byte(s) fewer than {nparam} are returned, silently')
+        # --- request size
+        if kind in _SIZE_READERS:
+            if not call.args:
+                problems.append(f'`{pf.nsrc(call)}` asks for everything up to the end of the file: more than {nparam} bytes are returned')
+            else:
+                v, why = _cap_verdict(pf.expand_locals(f, call.args[0]), O, {})
+                ctx.need(v is not None, f'{where}: {why}')
+                if not v:
+                    problems.append(f'`{pf.nsrc(call)}` asks for more than the outstanding bytes ({why}): after a short first block more than {nparam} bytes are returned')
+            data = None
+        else:
+            ctx.need(len(call.args) == 1, f'{where}: `{pf.nsrc(call)}` not recognised')
+            a0 = call.args[0]
+            sl = a0.slice if isinstance(a0, ast.Subscript) and isinstance(a0.slice, ast.Slice) else None
+            base = _is_memoryview_of(f, a0.value if sl is not None else a0)
+            ctx.need(base is not None and isinstance(base, ast.Name), f'{where}: destination `{pf.nsrc(a0)}` is not (a slice of) a memoryview of a local buffer')
+            bdef = pf.single_def(f, base.id)  # type: ignore[union-attr]
+            ctx.need(isinstance(bdef, ast.Call) and pf.dotted(bdef.func) == 'bytearray' and len(bdef.args) == 1 and not bdef.keywords, f'{where}: buffer `{base.id}` is not `bytearray(<size>)`')  # type: ignore[union-attr]
+            try:
+                N = linform.lin(pf.expand_locals(f, bdef.args[0]))  # type: ignore[union-attr]
+                lo = linform.lin(pf.expand_locals(f, sl.lower)) if sl is not None and sl.lower is not None else linform.const(0)
+                hi = linform.lin(pf.expand_locals(f, sl.upper)) if sl is not None and sl.upper is not None else N
+            except AnalysisError as e:
+                raise AnalysisError(f'{where}: destination `{pf.nsrc(a0)}` not linear ({e})')
+            ctx.need(sl is None or sl.step is None, f'{where}: strided destination')
+            ctx.need(total is not None, f'{where}: readinto with a count-down variable not recognised')
+            ctx.need(N == total, f'{where}: the buffer holds {N!r} bytes, not `{nparam}`')
+            dpos = lo - stored
+            if dpos != linform.const(0):
+                problems.append(f'`{pf.nsrc(call)}` stores each block at offset `{lo!r}`, not behind the `{stored!r}` bytes already read: earlier blocks are overwritten / gaps stay zero, the bytes returned are not the bytes of the file')
+            dcap = (hi - lo) - O
+            ctx.need(dcap.is_const() or dpos != linform.const(0), f'{where}: capacity of `{pf.nsrc(a0)}` not comparable with the outstanding bytes')
+            if dcap.is_const() and dcap.const > 0:
+                problems.append(f'`{pf.nsrc(call)}` offers {dcap.const} byte(s) more than are outstanding')
+            data = base.id  # type: ignore[union-attr]
+        # --- end of file inside the loop
+        def empties(t: ast.AST) -> bool:
+            e = t
+            if isinstance(e, ast.UnaryOp) and isinstance(e.op, ast.Not):
+                return pf.nsrc(e.operand) in (rv, f'len({rv})')
+            if isinstance(e, ast.Compare) and len(e.ops) == 1:
+                l, r = pf.nsrc(e.left), pf.nsrc(e.comparators[0])
+                if isinstance(e.ops[0], ast.Eq) and {l, r} in ({amount, '0'}, {rv, "b''"}):
+                    return True
+                if isinstance(e.ops[0], (ast.Lt, ast.LtE, ast.Gt, ast.GtE)):
+                    try:
+                        return linform.cmp_le0(e) == linform.sym(amount)
+                    except AnalysisError:
+                        return False
+            if isinstance(e, ast.BoolOp) and isinstance(e.op, ast.Or):
+                return any(empties(x) for x in e.values) and all(empties(x) or (isinstance(x, ast.Compare) and pf.nsrc(x.left) == rv and isinstance(x.comparators[0], ast.Constant)
+                                                                             and x.comparators[0].value is None) for x in e.values)
+            return False
+        ztests = [st for st in lp.body if isinstance(st, ast.If) and empties(st.test)]
+        exits = [st for st in ast.walk(lp) if isinstance(st, (ast.Break, ast.Return))]
+        raises_in = [st for st in ast.walk(lp) if _is_eof_raise(st)]
+        if len(ztests) == 1 and not ztests[0].orelse and ztests[0].body and _is_eof_raise(ztests[0].body[-1]) and lp.body.index(ztests[0]) > lp.body.index(res[0]) \
+                and lp.body.index(ztests[0]) < lp.body.index(st_p):
+            ctx.need(not exits, f'{where}: the loop `while {pf.nsrc(lp.test)}` is also left by `{pf.nsrc(exits[0]) if exits else ""}`; not recognised')
+        elif len(ztests) == 1 and ztests[0].body and isinstance(ztests[0].body[-1], (ast.Break, ast.Return)) and not raises_in:
+            problems.append(f'when `{pf.nsrc(call)}` returns nothing (end of file) the loop is left by `{pf.nsrc(ztests[0].body[-1])}` and the bytes read so far are returned as if complete: '
+                            f'no UnexpectedEOFError for a range that ends early')
+            line = ztests[0].lineno
+        elif not ztests and not raises_in and not exits:
+            problems.append(f'end of file is not detected: when `{pf.nsrc(call)}` returns nothing the loop neither raises UnexpectedEOFError nor ends')
+        else:
+            raise AnalysisError(f'{where}: end-of-file handling of the loop `while {pf.nsrc(lp.test)}` not recognised')
+        if problems:
+            ctx.bad('R3', cons, problems[0] + (f' (+{len(problems) - 1} more)' if len(problems) > 1 else ''), mm.path, line, extra=problems)
+        else:
+            ctx.ok('R3', cons, {'outstanding': repr(O), 'reader': kind, 'request': pf.nsrc(call)})
+        # what holds the data
+        if kind in _SIZE_READERS:
+            apps = [st for st in lp.body if isinstance(st, ast.Expr) and isinstance(st.value, ast.Call) and isinstance(st.value.func, ast.Attribute)
+                    and st.value.func.attr in ('append', 'extend') and isinstance(st.value.func.value, ast.Name) and [pf.nsrc(a) for a in st.value.args] == [rv]]
+            apps += [st for st in lp.body if isinstance(st, ast.AugAssign) and isinstance(st.op, ast.Add) and isinstance(st.target, ast.Name) and pf.nsrc(st.value) == rv]
+            ctx.need(len(apps) == 1, f'{where}: the blocks read in `while {pf.nsrc(lp.test)}` are not collected in a recognised way')
+            data = apps[0].value.func.value.id if isinstance(apps[0], ast.Expr) else apps[0].target.id  # type: ignore[union-attr]
+        accs[id(lp)] = (kind, data)  # type: ignore[assignment]
+    # every value-returning exit lies behind exactly one of the loops and returns what that loop collected
+    rets = [n for n in g.nodes if n.kind == 'return' and n.ast is not None and getattr(n.ast, 'value', None) is not None]
+    ctx.need(rets, f'{where}: no value is returned')
+    for r in rets:
+        behind = [lp for lp in loops if g.dominated_by(r, lambda n, h=heads[id(lp)]: n is h)]
+        ctx.need(len(behind) == 1, f'{where}: `{r.text()}` lies behind {len(behind)} of the read loops; not recognised')
+        kind, data = accs.get(id(behind[0]), (None, None))
+        if data is None:
+            continue  # the loop itself was reported
+        v = r.ast.value  # type: ignore[union-attr]
+        names = pf.names_in(v) | pf.names_in(pf.expand_locals(f, v))
+        ctx.need(data in names or any(_is_memoryview_of(f, ast.Name(id=x, ctx=ast.Load())) is not None and pf.nsrc(_is_memoryview_of(f, ast.Name(id=x, ctx=ast.Load()))) == data for x in names),
+                 f'{where}: `{r.text()}` does not return the data collected in `{data}`')
+
+
+def _front(ctx: Ctx, stream_verdicts: Optional[Dict[str, bool]] = None) -> None:
     m = pf.load(FS)
     # read_range
     fn = m.func('AsyncFS.read_range')
@@ -521,6 +1129,37 @@ def _front(ctx: Ctx) -> None:
     args = [pf.nsrc(x) for x in dc.args]
     kwd = {k.arg: pf.nsrc(k.value) for k in dc.keywords}
     ctx.check(args == [url, start] and kwd == {'length': length}, 'R3', f'{where}::forwards unchanged', f'`{pf.nsrc(dc)}` does not forward ({url}, {start}, length={length})', m.path, dc.lineno)
+    # what open_from hands to the caller is the back end's stream itself; a wrapper put around it is a new ReadableStream implementation
+    # in the path of every ranged read: its read-all contract is decided by R6, its bounded-read accounting is not analysed (declined)
+    rcons = f'{where}::returns the stream of _open_from'
+    if DN.kind == 'return':
+        v = DN.ast.value  # type: ignore[union-attr]
+        ctx.need((v.value if isinstance(v, ast.Await) else v) is dc, f'{where}: `{DN.text()}` post-processes the stream; not recognised')
+        ctx.ok('R3', rcons, DN.text())
+    else:
+        a = DN.ast
+        ctx.need(isinstance(a, (ast.Assign, ast.AnnAssign)) and isinstance(a.targets[0] if isinstance(a, ast.Assign) else a.target, ast.Name)
+                 and (a.value.value if isinstance(a.value, ast.Await) else a.value) is dc, f'{where}: `{DN.text()}` is not `<name> = await self._open_from(...)`')
+        sv = (a.targets[0] if isinstance(a, ast.Assign) else a.target).id  # type: ignore[union-attr]
+        after = g.reachable_from(DN)
+        rets2 = [n for n in g.nodes if n.kind == 'return' and n.id in after]
+        ctx.need(rets2 and all(isinstance(getattr(n.ast, 'value', None), ast.Name) and n.ast.value.id == sv for n in rets2), f'{where}: a return after `{DN.text()}` does not return `{sv}`')  # type: ignore[union-attr]
+        wrappers: List[str] = []
+        for v in pf.assignments(fn).get(sv, []):
+            if v is a.value:
+                continue
+            ctx.need(isinstance(v, ast.Call) and isinstance(v.func, ast.Name) and v.args and isinstance(v.args[0], ast.Name) and v.args[0].id == sv,
+                     f'{where}: `{sv}` is rebound by something that is not `<Wrapper>({sv}, ...)`')
+            wrappers.append(v.func.id)  # type: ignore[union-attr]
+        if not wrappers:
+            ctx.ok('R3', rcons, f'{sv} = {pf.nsrc(a.value)}; return {sv}')
+        else:
+            sv_ = stream_verdicts or {}
+            unknown = [w for w in wrappers if w not in sv_]
+            ctx.need(not unknown, f'{where}: the back end stream is wrapped in {unknown}, which is not a ReadableStream implementation found under hailtop')
+            if all(sv_[w] for w in wrappers):
+                raise AnalysisError(f'{where}: the stream of every back end is wrapped in {wrappers}; read(-1) of the wrapper was decided (R6), its bounded-read / readexactly accounting is not analysed')
+            ctx.ok('R3', rcons, f'wrapped in {wrappers}: see R6', nontrivial=False)
     zero = [n for n in g.nodes if n.kind == 'test' and isinstance(n.ast, ast.Compare) and len(n.ast.ops) == 1 and pf.nsrc(n.ast.left) == length
             and isinstance(n.ast.comparators[0], ast.Constant) and n.ast.comparators[0].value == 0 and not isinstance(n.ast.comparators[0].value, bool)
             and isinstance(n.ast.ops[0], (ast.Eq, ast.NotEq))]
@@ -541,10 +1180,35 @@ def _front(ctx: Ctx) -> None:
     ctx.unit('functions', 3)
 
     # readexactly implementations signal a short read
-    sites = [(ST, '_ReadableStreamFromBlocking._readexactly'), (ST, 'EmptyReadableStream.readexactly'), (GCS, 'GetObjectStream.readexactly'), (AZ, 'AzureReadableStream.readexactly')]
+    # (closure: every ReadableStream implementation under hailtop; a readexactly that only hands the request to a blocking helper method of
+    # its class is checked at that method, one that hands it to the wrapped stream's readexactly inherits that stream's behaviour)
+    sites: List[Tuple[str, str]] = []
+    for rel, mm, cls in _stream_classes():
+        f0 = next((st for st in cls.body if isinstance(st, (ast.FunctionDef, ast.AsyncFunctionDef)) and st.name == 'readexactly'), None)
+        if f0 is None:
+            continue
+        body0 = [st for st in f0.body if not (isinstance(st, ast.Expr) and isinstance(st.value, ast.Constant))]
+        if all(isinstance(st, (ast.Pass, ast.Raise)) for st in body0) and cls.name == 'ReadableStream':
+            continue  # abstract declaration
+        qual = f'{cls.name}.readexactly'
+        np0 = f0.args.args[1].arg if len(f0.args.args) > 1 else None
+        last = body0[-1] if body0 else None
+        c0 = last.value if isinstance(last, ast.Return) else None
+        c0 = c0.value if isinstance(c0, ast.Await) else c0
+        if isinstance(c0, ast.Call) and all(isinstance(st, ast.Assert) for st in body0[:-1]) and not any(isinstance(x, ast.Raise) for x in ast.walk(f0)):
+            if (pf.dotted(c0.func) or '').split('.')[-1] == 'blocking_to_async' and len(c0.args) == 3 and isinstance(c0.args[1], ast.Attribute) and pf.nsrc(c0.args[1].value) == 'self' \
+                    and pf.nsrc(c0.args[2]) == np0 and mm.has_func(f'{cls.name}.{c0.args[1].attr}'):
+                qual = f'{cls.name}.{c0.args[1].attr}'
+            elif isinstance(c0.func, ast.Attribute) and c0.func.attr == 'readexactly' and [pf.nsrc(a) for a in c0.args] == [np0] and not c0.keywords and pf.nsrc(c0.func.value).startswith('self.'):
+                ctx.ok('R3', f'{rel}::{qual}::short read raises UnexpectedEOFError', f'delegates to `{pf.nsrc(c0)}`', nontrivial=False)
+                continue
+        sites.append((rel, qual))
     for rel, qual in sites:
         mm = pf.load(rel)
         f = mm.func(qual)
+        if any(isinstance(x, ast.While) for x in pf.walk_shallow(f)):
+            # built from a loop over an at-most reader (the blocking adapter; a stream that re-implements readexactly on top of its read)
+            _exact_read_loops(ctx, mm, qual)
         raises = [st for st in _stmts(f) if isinstance(st, ast.Raise) and st.exc is not None and (pf.dotted(st.exc.func if isinstance(st.exc, ast.Call) else st.exc) or '') == 'UnexpectedEOFError']
         gg = pf.cfg(f)
         reach = gg.reachable_from(gg.entry)
@@ -559,7 +1223,7 @@ def _front(ctx: Ctx) -> None:
             if not (isinstance(vv, ast.Call) and pf.dotted(vv.func) == 'self.read' and [pf.nsrc(a) for a in vv.args] == [nparam] and not vv.keywords):
                 continue
             guards = [x for x in ast.walk(f) if isinstance(x, ast.If) and any(r in x.body for r in raises)]
-            if len(guards) != 1:
+            if len(guards) != 1 or any(isinstance(x, ast.While) for x in pf.walk_shallow(f)):
                 continue
             t = guards[0].test
             cons = f'{rel}::{qual}::short read test'
@@ -584,28 +1248,265 @@ def _front(ctx: Ctx) -> None:
                               mm.path, guards[0].lineno, detail=pf.nsrc(t))
             except AnalysisError as e:
                 raise AnalysisError(f'{rel}::{qual}: short-read test `{pf.nsrc(t)}` not linear ({e})')
-    # the blocking implementation loops until n bytes are read
-    mm = pf.load(ST)
-    f = mm.func('_ReadableStreamFromBlocking._readexactly')
-    where = f'{ST}::_ReadableStreamFromBlocking._readexactly'
-    nparam = f.args.args[1].arg
-    loops = [st for st in f.body if isinstance(st, ast.While)]
-    ctx.need(len(loops) == 1, f'{where}: expected one while loop')
-    lp = loops[0]
+    ctx.unit('functions', 5)
+
+
+# ------------------------------------------------------------------------------------------------
+# R6 read() == everything up to the end, for every ReadableStream implementation
+# ------------------------------------------------------------------------------------------------
+
+def _sentinel_truth(t: ast.AST, n: str) -> Optional[bool]:
+    """Truth of a test for the abstract case `n is the read-all sentinel (-1)`; None when the test does not only depend on that."""
+    if isinstance(t, ast.UnaryOp) and isinstance(t.op, ast.Not):
+        v = _sentinel_truth(t.operand, n)
+        return None if v is None else not v
+    if isinstance(t, ast.BoolOp):
+        vs = [_sentinel_truth(x, n) for x in t.values]
+        if isinstance(t.op, ast.And):
+            return False if any(v is False for v in vs) else (True if all(v is True for v in vs) else None)
+        return True if any(v is True for v in vs) else (False if all(v is False for v in vs) else None)
+    if isinstance(t, ast.Name) and t.id == n:
+        return True
+    if isinstance(t, ast.Compare) and len(t.ops) == 1:
+        l, r, op = t.left, t.comparators[0], t.ops[0]
+
+        def ival(x: ast.AST) -> Optional[int]:
+            if isinstance(x, ast.Constant) and isinstance(x.value, int) and not isinstance(x.value, bool):
+                return x.value
+            if isinstance(x, ast.UnaryOp) and isinstance(x.op, ast.USub):
+                v = ival(x.operand)
+                return None if v is None else -v
+            return None
+        if isinstance(l, ast.Name) and l.id == n and isinstance(r, ast.Constant) and r.value is None and isinstance(op, (ast.Is, ast.IsNot, ast.Eq, ast.NotEq)):
+            return isinstance(op, (ast.IsNot, ast.NotEq))
+        a = -1 if isinstance(l, ast.Name) and l.id == n else ival(l)
+        b = -1 if isinstance(r, ast.Name) and r.id == n else ival(r)
+        if a is None or b is None or not (pf.names_in(t) == {n}):
+            return None
+        table = {ast.Eq: a == b, ast.NotEq: a != b, ast.Lt: a < b, ast.LtE: a <= b, ast.Gt: a > b, ast.GtE: a >= b}
+        return table.get(type(op))
+    return None
+
+
+def _stream_classes() -> List[Tuple[str, pf.Module, ast.ClassDef]]:
+    """Classes under hailtop derived (by base name, transitively) from ReadableStream."""
+    allc: List[Tuple[str, pf.Module, ast.ClassDef]] = []
+    for rel in pf.walk_py(SCAN_DIRS):
+        m = pf.load(rel)
+        for cls in m.classes():
+            allc.append((rel, m, cls))
+    derived = {'ReadableStream'}
+    changed = True
+    while changed:
+        changed = False
+        for _rel, _m, cls in allc:
+            if cls.name not in derived and any((pf.dotted(b) or '').split('.')[-1] in derived for b in cls.bases):
+                derived.add(cls.name)
+                changed = True
+    return [(rel, m, cls) for rel, m, cls in allc if cls.name in derived]
+
+
+def _read_all_contract(ctx: Ctx, verdicts: Dict[str, bool]) -> None:
+    """`read()` / `read(-1)` means "all bytes up to the end" (the comment on ReadableStream.read; read_from and every
+    `open_from(..., length=L)` + `read()` rely on it), `read(k)` means "AT MOST k bytes".  For every ReadableStream implementation
+    the paths of `read` are enumerated for the abstract case n = the sentinel: what is returned must be a constant, the result of
+    a read-all primitive (`x.read()`, `x.read(-1)`, `x.read(n)` with n still the sentinel, `x.readall()`, a blocking `f.read`
+    without a count) or the join of a loop that reads until nothing is left - never the result of one bounded `await x.read(k)`."""
+    n_impl = 0
+    for rel, m, cls in _stream_classes():
+        rd = next((st for st in cls.body if isinstance(st, (ast.FunctionDef, ast.AsyncFunctionDef)) and st.name == 'read'), None)
+        where = f'{rel}::{cls.name}.read'
+        if rd is None:
+            ctx.need(cls.name == 'ReadableStream' or any((pf.dotted(b) or '').split('.')[-1] != 'ReadableStream' for b in cls.bases), f'{where}: not defined')
+            continue
+        body = [st for st in rd.body if not (isinstance(st, ast.Expr) and isinstance(st.value, ast.Constant))]
+        if all(isinstance(st, (ast.Pass, ast.Raise)) for st in body):
+            continue  # abstract declaration
+        ps = [a.arg for a in rd.args.args]
+        ctx.need(len(ps) == 2 and not rd.args.kwonlyargs and not rd.args.vararg and not rd.args.kwarg, f'{where}: signature changed: {ps}')
+        n = ps[1]
+        n_impl += 1
+        g = pf.cfg(rd)
+        loops = [st for st in pf.walk_shallow(rd) if isinstance(st, (ast.While, ast.For, ast.AsyncFor))]
+
+        def in_loop(node: ast.AST) -> Optional[ast.AST]:
+            for lp in loops:
+                if any(x is node for x in ast.walk(lp)):
+                    return lp
+            return None
+
+        problems: List[Tuple[str, int]] = []
+        oks: List[str] = []
+        State = Tuple[bool, Optional[ast.AST]]  # (n still holds the caller's argument, its last definition)
+
+        def classify(e: ast.AST, env: Dict[str, Tuple[ast.AST, State]], st: State, depth: int = 0) -> None:
+            ctx.need(depth < 6, f'{where}: returned value too indirect')
+            awaited = False
+            if isinstance(e, ast.Await):
+                e, awaited = e.value, True
+            if isinstance(e, ast.Name) and e.id in env:
+                v, st0 = env[e.id]
+                return classify(v, env, st0, depth + 1)
+            if isinstance(e, ast.Constant) and isinstance(e.value, bytes):
+                oks.append(pf.nsrc(e))
+                return
+            if isinstance(e, ast.Call) and pf.dotted(e.func) in ('bytes', 'bytearray') and len(e.args) == 1 and not e.keywords:
+                return classify(e.args[0], env, st, depth + 1)
+            if isinstance(e, ast.Call) and pf.dotted(e.func) in ('bytes', 'bytearray') and not e.args and not e.keywords:
+                oks.append(pf.nsrc(e))
+                return
+            if isinstance(e, ast.BinOp) and isinstance(e.op, ast.Add) and not awaited:
+                # <bytes already buffered> + <the rest>: the rest must be a read-all
+                ctx.need(not any(isinstance(x, (ast.Call, ast.Await)) for x in ast.walk(e.left)), f'{where}: `{pf.nsrc(e.left)}` in `{pf.nsrc(e)}` not recognised as buffered data')
+                return classify(e.right, env, st, depth + 1)
+            if isinstance(e, ast.Call):
+                f = e.func
+                fname = pf.dotted(f) or ''
+                recv_call: Optional[ast.Call] = None
+                count: Optional[ast.AST] = None
+                has_count = False
+                if fname.split('.')[-1] == 'blocking_to_async' and len(e.args) >= 2 and isinstance(e.args[1], ast.Attribute) and e.args[1].attr in ('read', 'readall') and not e.keywords:
+                    ctx.need(len(e.args) <= 3, f'{where}: `{pf.nsrc(e)}` not recognised')
+                    if len(e.args) == 2:
+                        oks.append(pf.nsrc(e))
+                        return
+                    count, has_count, recv_call = e.args[2], True, e
+                    awaited = False  # a blocking file read: at-most or exactly-unless-EOF depends on the file object
+                elif isinstance(f, ast.Attribute) and f.attr == 'readall' and not e.args and not e.keywords:
+                    oks.append(pf.nsrc(e))
+                    return
+                elif isinstance(f, ast.Attribute) and f.attr == 'read':
+                    ctx.need(not e.keywords and len(e.args) <= 1 and not any(isinstance(a, ast.Starred) for a in e.args), f'{where}: `{pf.nsrc(e)}` not recognised')
+                    if not e.args:
+                        oks.append(pf.nsrc(e))
+                        return
+                    count, has_count, recv_call = e.args[0], True, e
+                elif isinstance(f, ast.Attribute) and f.attr == 'join' and isinstance(f.value, ast.Constant) and f.value.value == b'' and len(e.args) == 1 and isinstance(e.args[0], ast.Name):
+                    _accumulating_loop(ctx, rd, where, e.args[0].id, loops)
+                    oks.append(pf.nsrc(e))
+                    return
+                while has_count and isinstance(count, ast.IfExp) and st[0] and _sentinel_truth(count.test, n) is not None:
+                    count = count.body if _sentinel_truth(count.test, n) else count.orelse
+                if has_count and recv_call is not None and count is not None:
+                    if pf.nsrc(count) == '-1' or (isinstance(count, ast.Constant) and count.value is None):
+                        oks.append(pf.nsrc(e))
+                        return
+                    if isinstance(count, ast.Name) and count.id == n and st[0]:
+                        oks.append(pf.nsrc(e) + f' ({n} is the caller\'s -1)')
+                        return
+                    ctx.need(in_loop(recv_call) is None, f'{where}: `{pf.nsrc(e)}` inside a loop on the read-all path; accumulation not recognised')
+                    ctx.need(awaited, f'{where}: blocking `{pf.nsrc(e)}` with a count on the read-all path: whether it stops early depends on the file object; not decided')
+                    cnt = pf.nsrc(count)
+                    if isinstance(count, ast.Name) and count.id == n and st[1] is not None:
+                        cnt = f'{n} = {pf.nsrc(st[1])}'
+                    problems.append((f'for read() / read(-1) ("all bytes up to the end") the method returns the result of ONE `{pf.nsrc(e)}` with the count {cnt}: ReadableStream.read(k) / '
+                                     f'aiohttp StreamReader.read(k) return AT MOST k bytes - as soon as any data has arrived - so open_from(url, s, length=L) followed by read() yields only the '
+                                     f'first piece of the range that happens to be buffered (e.g. 1400 of 5000 bytes on GCS), silently; a read-all must loop until nothing is left or use '
+                                     f'a read-all primitive', e.lineno))
+                    return
+            raise AnalysisError(f'{where}: value returned for read(-1), `{pf.nsrc(e)}`, not recognised')
+
+        n_paths = [0]
+
+        def walk(node: pf.Node, env: Dict[str, Tuple[ast.AST, State]], st: State, seen: Tuple[int, ...]) -> None:
+            ctx.need(len(seen) < 300 and n_paths[0] < 200, f'{where}: too many paths')
+            a = node.ast
+            if node.kind == 'return':
+                n_paths[0] += 1
+                v = getattr(a, 'value', None)
+                ctx.need(v is not None, f'{where}: returns None for read(-1)')
+                classify(v, env, st)
+                return
+            env2, st2 = env, st
+            if node.kind == 'stmt' and isinstance(a, (ast.Assign, ast.AnnAssign)) and getattr(a, 'value', None) is not None:
+                tgts = a.targets if isinstance(a, ast.Assign) else [a.target]
+                for t in tgts:
+                    if isinstance(t, ast.Name):
+                        if t.id == n:
+                            st2 = (False, a.value)
+                        else:
+                            env2 = {**env2, t.id: (a.value, st)}
+                    else:
+                        for x in ast.walk(t):
+                            if isinstance(x, ast.Name) and isinstance(x.ctx, ast.Store):
+                                env2 = {k: v for k, v in env2.items() if k != x.id}
+                                if x.id == n:
+                                    st2 = (False, None)
+            elif node.kind == 'stmt' and isinstance(a, ast.AugAssign) and isinstance(a.target, ast.Name):
+                if a.target.id == n:
+                    st2 = (False, None)
+                else:
+                    env2 = {k: v for k, v in env2.items() if k != a.target.id}
+            elif node.kind in ('loop', 'with') and a is not None:
+                bound = set()
+                for x in ast.walk(a.target if isinstance(a, (ast.For, ast.AsyncFor)) else ast.Module(body=[], type_ignores=[])):
+                    if isinstance(x, ast.Name):
+                        bound.add(x.id)
+                if isinstance(a, (ast.With, ast.AsyncWith)):
+                    for it in a.items:
+                        if it.optional_vars is not None:
+                            bound |= {x.id for x in ast.walk(it.optional_vars) if isinstance(x, ast.Name)}
+                if bound:
+                    env2 = {k: v for k, v in env2.items() if k not in bound}
+                    if n in bound:
+                        st2 = (False, None)
+            tv: Optional[bool] = None
+            if node.kind == 'test' and a is not None and st[0]:
+                tv = _sentinel_truth(a, n)
+            for nxt, lab in node.succ:
+                if lab == 'exc' or nxt is g.raise_exit or nxt.id in seen or nxt.kind == 'raise':
+                    continue
+                if tv is not None and lab in ('T', 'F') and (lab == 'T') != tv:
+                    continue
+                if nxt is g.exit:
+                    ctx.need(node.kind == 'return', f'{where}: falls off the end (returns None) for read(-1)')
+                    continue
+                walk(nxt, env2, st2, seen + (node.id,))
+
+        walk(g.entry, {}, (True, None), ())
+        ctx.need(n_paths[0] > 0, f'{where}: no path returns a value for read(-1)')
+        ctx.unit('read_all_paths', n_paths[0])
+        cons = f'{where}::read(-1) returns everything up to the end'
+        if problems:
+            uniq = []
+            for p_ in problems:
+                if p_ not in uniq:
+                    uniq.append(p_)
+            ctx.bad('R6', cons, uniq[0][0], m.path, uniq[0][1], extra=[x[0] for x in uniq])
+        else:
+            ctx.ok('R6', cons, {'paths': n_paths[0], 'returns': sorted(set(oks))})
+        verdicts[cls.name] = not problems
+    ctx.unit('stream_classes', n_impl)
+
+
+def _accumulating_loop(ctx: Ctx, rd: pf.FuncDef, where: str, acc: str, loops: List[ast.AST]) -> None:
+    """`return b''.join(acc)`: acc starts empty and is filled by ONE loop that appends every block it reads and is left only when a read
+    returned nothing, or when its own count of outstanding bytes (decremented by every block) reaches zero.  Anything else: declined."""
+    d = [v for v in pf.assignments(rd).get(acc, [])]
+    ctx.need(len(d) == 1 and isinstance(d[0], ast.List) and not d[0].elts, f'{where}: `{acc}` does not start as an empty list')
+    mine = [lp for lp in loops if any(isinstance(x, ast.Call) and isinstance(x.func, ast.Attribute) and x.func.attr == 'append' and pf.nsrc(x.func.value) == acc for x in ast.walk(lp))]
+    ctx.need(len(mine) == 1 and isinstance(mine[0], ast.While) and not mine[0].orelse, f'{where}: `{acc}` is not filled by exactly one while loop')
+    lp = mine[0]
+    reads = [st for st in lp.body if isinstance(st, ast.Assign) and len(st.targets) == 1 and isinstance(st.targets[0], ast.Name) and isinstance(st.value, ast.Await)
+             and isinstance(st.value.value, ast.Call) and isinstance(st.value.value.func, ast.Attribute) and st.value.value.func.attr == 'read']
+    ctx.need(len(reads) == 1, f'{where}: the loop filling `{acc}` does not bind exactly one awaited read')
+    rv = reads[0].targets[0].id  # type: ignore[attr-defined]
+    apps = [st for st in lp.body if isinstance(st, ast.Expr) and isinstance(st.value, ast.Call) and pf.nsrc(st.value.func) == f'{acc}.append' and [pf.nsrc(a) for a in st.value.args] == [rv]]
+    ctx.need(len(apps) == 1, f'{where}: not every block read is appended to `{acc}`')
+    for br in [x for x in ast.walk(lp) if isinstance(x, (ast.Break, ast.Return, ast.Continue))]:
+        guard = [st for st in lp.body if isinstance(st, ast.If) and br in st.body and not st.orelse]
+        ok = len(guard) == 1 and isinstance(br, ast.Break) and pf.nsrc(guard[0].test) in (f'not {rv}', f'len({rv}) == 0', f"{rv} == b''") and lp.body.index(guard[0]) > lp.body.index(reads[0])
+        ctx.need(ok, f'{where}: the loop filling `{acc}` is left by `{pf.nsrc(br)}` under a condition that is not "the read returned nothing"')
+    if isinstance(lp.test, ast.Constant) and lp.test.value is True:
+        return
     try:
         cond = linform.cmp_le0(lp.test)
     except AnalysisError:
         cond = None
-    ctx.need(cond is not None, f'{where}: loop condition not recognised')
-    rd = [c for c in pf.calls_in(lp) if isinstance(c.func, ast.Attribute) and c.func.attr == 'read']
-    decs = [st for st in lp.body if isinstance(st, ast.AugAssign) and isinstance(st.target, ast.Name) and st.target.id == nparam and isinstance(st.op, ast.Sub)]
-    ctx.need(len(rd) == 1, f'{where}: expected one read in the loop')
-    blk = [st.targets[0].id for st in lp.body if isinstance(st, ast.Assign) and st.value is rd[0] and isinstance(st.targets[0], ast.Name)]
-    ok = cond == linform.const(1) - linform.sym(nparam) and [pf.nsrc(x) for x in rd[0].args] == [nparam] and len(blk) == 1 and len(decs) == 1 \
-        and pf.nsrc(decs[0].value) == f'len({blk[0]})'
-    ctx.check(ok, 'R3', f'{where}::reads until n bytes', f'the loop `while {pf.nsrc(lp.test)}` with `{pf.nsrc(rd[0])}` / {[pf.nsrc(x) for x in decs]} does not read at most the outstanding '
-              f'`{nparam}` bytes and count them down', mm.path, lp.lineno)
-    ctx.unit('functions', 5)
+    ctx.need(cond is not None and len(cond.symbols()) == 1 and cond == linform.const(1) - linform.sym(cond.symbols()[0]), f'{where}: condition of the loop filling `{acc}` not recognised')
+    c = cond.symbols()[0]  # type: ignore[union-attr]
+    decs = [st for st in lp.body if isinstance(st, ast.AugAssign) and pf.nsrc(st.target) == c]
+    ctx.need(len(decs) == 1 and isinstance(decs[0].op, ast.Sub) and pf.nsrc(decs[0].value) == f'len({rv})', f'{where}: `{c}` is not counted down by every block read')
 
 
 # ------------------------------------------------------------------------------------------------
@@ -684,17 +1585,20 @@ def run(ctx: Ctx) -> None:
     ctx.explanation = ('Every concrete _open_from under hailtop is located (closure scan) and its request construction normalised: Range templates as string parts with the end '
                        'offset in linear normal form on every CFG path, SDK calls for unchanged (offset, length), local truncation and front-end span arithmetic in linear normal form. '
                        'The carrier of the Range (GCS headers dict, S3 keyword) and the GCS alt=media parameter are followed by an abstract execution over alias groups through every '
-                       'function that may be called down to the request primitive. Every buffered reader is checked for one consistent representation of its unconsumed bytes.')
+                       'function that may be called down to the request primitive. Every buffered reader is checked for one consistent representation of its unconsumed bytes; every '
+                       'reader method of the truncating wrapper for the cap limit - offset; every ReadableStream.read for the read-all contract on the paths of the sentinel case.')
     ctx.rule('R0', 'the concrete _open_from implementations under hailtop are exactly local, router, GCS, S3, Azure, each naming (url, start) in the declared order', 6)
     ctx.rule('R1', 'HTTP Range = bytes={start}- without length and bytes={start}-{start+length-1} with length on every path, and it is sent', 4)
-    ctx.rule('R2', 'Azure passes offset/length unchanged at every download_blob; local seeks to start and truncates to length (read capped by limit-offset, offset advances); router delegates unchanged', 9)
-    ctx.rule('R3', 'read_range: n = end-start+inclusive, open_from(length=n), readexactly(n); read_from reads to the end; open_from short-circuits length==0 and forwards unchanged; '
-                   'readexactly raises UnexpectedEOFError on short reads (test `len(data) != n` / `< n` in linear form)', 12)
+    ctx.rule('R2', 'Azure passes offset/length unchanged at every download_blob; local seeks to start and truncates to length (every reader method of the wrapper capped by limit-offset, offset advances); router delegates unchanged', 9)
+    ctx.rule('R3', 'read_range: n = end-start+inclusive, open_from(length=n), readexactly(n); read_from reads to the end; open_from short-circuits length==0, forwards unchanged and returns '
+                   'the back end stream; readexactly raises UnexpectedEOFError on short reads (test `len(data) != n` / `< n` in linear form; blocking loops: outstanding-bytes normal form)', 13)
     ctx.assume('HTTP Range `bytes=a-b` is inclusive on both ends; azure download_blob(offset, length) returns exactly that span; file.read(n) returns at most n bytes')
     ctx.rule('R4', 'buffered stream readers use one representation of their unconsumed bytes (len(buffer), or len(buffer) - position) in refill tests, caps, '
                    'hand-out slices, consumption and reset', 9)
     ctx.rule('R5', 'the Range built by _open_from (GCS headers / S3 keyword) and GCS alt=media reach the request primitive: no function on the may-call chain replaces, '
                    'strips or stops forwarding the carrier', 3)
+    ctx.rule('R6', 'every ReadableStream implementation under hailtop returns for read() / read(-1) everything up to the end of its stream: a constant, a read-all '
+                   'primitive or a loop that reads until nothing is left - never the result of one bounded (at-most) read', 4)
     ctx.assume('mappings of unknown content merged into the request headers / params (auth headers, default params) do not carry a Range / alt entry; '
                'decorator-free functions of hailtop are called as written; calls on objects constructed by packages outside hailtop are the request primitives')
     errors: List[str] = []
@@ -715,7 +1619,9 @@ def run(ctx: Ctx) -> None:
     section(_azure)
     section(_local)
     section(_router)
-    section(_front)
+    verdicts: Dict[str, bool] = {}
+    section(_read_all_contract, verdicts)
+    section(_front, verdicts)
     section(_buffers)
     uni = c23facts.Universe()
     ctx.unit('modules_in_call_universe', len(uni.mods))
